@@ -432,6 +432,13 @@ pub fn corruptions(leaf: &E, k: usize, wrap: u8) -> Vec<NonMember> {
         out.push(mk("junk after quoted", format!("{kw} 'a'b"), true, wrap));
         out.push(mk("junk after quoted", format!("{kw} \"a\"'b'"), true, wrap));
     }
+    // two-argument primaries: junk directly after the quoted first argument (with and without a
+    // second word), the two arguments written without a blank between them, junk after the second
+    if matches!(lang, Lang::Str2 | Lang::StrFmt) {
+        for body in ["'a'b", "\"a\"b", "'a'%p", "\"out\"%p\\n", "'a'b c", "\"a\"'b'", "'a''b' c", "a 'b'c", "a \"%p\"x"] {
+            out.push(mk("junk after quoted", format!("{kw} {body}"), true, wrap));
+        }
+    }
     // glued primaries: a complete primary directly followed by the next word, no blank
     if matches!(lang, Lang::None | Lang::CmpNum | Lang::Size | Lang::Time | Lang::Types | Lang::Unsigned) {
         let next = ["-true", "-false", "-print", "-name x", "-uid 1"][k % 5];
